@@ -22,15 +22,30 @@ one module per grammar rule group; coq/Fix/ParamSpec.v, coq/Fix/FileSet.v):
  (e) the per-type file stems asn1c reports (`Compiled X.c`, in order) = FileSet.file_stems of the extracted model;
  (f) the specialization index of every flat instantiation site (read from the generated header) =
      ParamSpec.spec_indices of the model; and, on the C output alone, references with different actual parameter
-     lists must not share a C type (false on the unchanged tree: finding C10-param-actuals-compared-shallowly)."""
+     lists must not share a C type (false on the unchanged tree: finding C10-param-actuals-compared-shallowly).
+Round 3 (lib/c10_refs.py: TYPE REFERENCES as a swept dimension - one module per basic type kind x alias chains of length
+1..3 x tagged/untagged at each hop x added constraint x every use position; coq/Rt/WfAlias.v):
+ (g) the alias invariant, on the C output alone (lib/c10_alias.py): the descriptor of `A ::= [tag] T (c)` equals T's in
+     every slot except name / tags (= X.680 tagging of T's) / constraint records (equal unless c) / specifics (equal unless
+     c re-constrains an INTEGER or REAL); every member without a tag of its own carries the outermost tag of its type;
+ (h) the same facts as a checked obligation: Gen_Descr_<n>.v now states `wf_x xtab = true` (Rt/WfAlias.v: wf_descr_all +
+     hops + member tags) for every table; the theorems C10_alias_* say what that gives for chains of any length;
+ (i) thorough: asn1c rebuilt with --coverage in a scratch copy, every module run once; evidence lists which module first
+     reaches each asn1c_lang_C_type_* emitter / each case arm of emit_type_DEF, emit_member_table ..., and the
+     never-executed lines of libasn1compiler/asn1c_C.c."""
 import sys, os, re, json, time
 sys.path.insert(0, os.path.join(os.path.dirname(os.path.abspath(__file__)), "..", "lib"))
 from vlib import *
 from c10_util import *
+import c10_alias, c10_refs
 
 CLAUSES = {1: "translator saw a null table with a non-zero count", 2: "member type index out of range", 3: "tags / all_tags relation",
            4: "PER record of the type", 5: "OER record of the type", 6: "member records (PER/OER/tag_mode/flags)",
-           7: "kind-specific specifics (tag2el sorted+exact, oms/roms/aoms, first_extension, canonical maps, enum maps)"}
+           7: "kind-specific specifics (tag2el sorted+exact, oms/roms/aoms, first_extension, canonical maps, enum maps)",
+           8: "reference: op table / member table / specifics differ from the target's", 9: "reference: tag vectors are not the X.680 tagging of the target's",
+           10: "reference: PER/OER record differs from the target's although no constraint is added", 11: "BIT STRING / ANY descriptor with NULL specifics",
+           12: "member without a tag of its own does not carry the outermost tag of its type", 13: "elements_count differs from the dumped member list",
+           14: "an alias with two targets (harness)", 15: "identity lines missing (harness)"}
 
 
 # ---------------------------------------------------------------- known findings: symptom signature + predicate on the input
@@ -224,6 +239,14 @@ def match_finding(stage, job):
     if stage == "descr":
         if set(job["failing_clauses"]) <= {4, 6} and bound_exceeds_long(text):
             return "C10-constant-exceeds-c-type"
+        # the Coq checker re-decides what the alias oracle decided on the same dump: clauses 9 / 12 are the tagged-ANY
+        # finding exactly when every problem the oracle saw is that symptom
+        if set(job["failing_clauses"]) <= {9, 12} and match_finding("alias", job) == "C10-tagged-any-loses-tag":
+            return "C10-tagged-any-loses-tag"
+    if stage == "alias":
+        probs = job.get("alias_probs", [])
+        if probs and all(len(p_) > 2 and p_[2] for p_ in probs) and re.search(r"\bANY\b", strip_comments(text)):
+            return "C10-tagged-any-loses-tag"
     return None
 
 
@@ -358,14 +381,14 @@ def main(tier):
         for oi, opts in enumerate(optsets):
             # thorough: asn1c runs under all 128 subsets for every module; the build + translator part runs for 16 of them
             # per module, rotating so that all subsets are built across the corpus
-            if tier == "quick" and m["origin"] in ("special", "multi", "grammar") and not m.get("all_optsets") and oi not in (mi % 2, 2 + (mi // 2) % 2):
+            if tier == "quick" and m["origin"] in ("special", "multi", "grammar", "refs") and not m.get("all_optsets") and oi not in (mi % 2, 2 + (mi // 2) % 2):
                 continue        # quick: generated modules get the 4 option sets, hand-made valid ones 2 of them in rotation
             if tier == "quick" and m["origin"] == "param" and oi not in (1, (3, 0, 2)[mi % 3]):
                 continue        # parameterized modules mostly need -fcompound-names (set 1); a second set in rotation
             if tier == "quick" and m["origin"] == "grammar-refused" and oi != mi % 4:
                 continue        # refusals happen in the parser / fixer: one option set each
             # thorough: build + translator under 16 rotating subsets per module (6 for the region modules of round 2, which are many)
-            full = tier == "quick" or ((oi - 16 * mi) % 128) < (6 if m["origin"] in ("param", "multi", "grammar", "grammar-refused") else 16)
+            full = tier == "quick" or ((oi - 16 * mi) % 128) < (6 if m["origin"] in ("param", "multi", "grammar", "grammar-refused", "refs") else 16)
             jobs.append({"mod": m, "opts": opts, "oi": oi, "dir": job_dir(root, m, oi), "asn1c": asn1c, "skel": skel,
                          "only_asn1c": not full, "cleanup": True})
     print("C10: %d jobs" % len(jobs), file=sys.stderr)
@@ -441,11 +464,33 @@ def main(tier):
         run.count("descriptors", len(terms))
         for k, _n in names_.values():
             run.count("kind:" + k)
+        # (g) references: the alias invariant and the member tags, evaluated on the dump alone
+        hops = m.get("hops")
+        if hops is None and not m.get("files"):
+            hops = c10_refs.hops_from_text(m["text"])
+        probs, resolved = c10_alias.alias_oracle(j["dump"], hops or [])
+        probs += c10_alias.member_tag_oracle(j["dump"])
+        run.count("tie:reference-hops", len(resolved))
+        for h_ in resolved:
+            run.count("hop:%s%s" % ("tagged" if h_[2] is not None else "untagged", "+constraint" if h_[4] else ""))
+        if probs:
+            j["alias_probs"] = probs
+            run.count("oracle:alias-invariant-broken")
+            fid = match_finding("alias", j)
+            if fid and fid in known_ids:
+                run.known_finding(fid, case)
+                run.count("known:" + fid)
+            else:
+                run.violation("alias:" + ",".join(sorted({p_[0] for p_ in probs})),
+                              dict(replay, what="asn1c exited 0 and the code builds, but the descriptor of a type reference is not its target's "
+                                                "(op / members / specifics / X.680 tags / codec records), or a member does not carry the tag of its type",
+                                   problems=[p_[1] for p_ in probs[:10]], hops=[h_ for h_ in (hops or [])][:40]))
         if tier == "quick" and m["origin"] in ("param", "multi", "grammar", "grammar-refused") and m["name"] in tabled:
             run.count("descriptor-tables-not-rechecked(round-2 module, second option set)")
             continue            # quick: the descriptor obligation of a round-2 module is generated for its first option set only
         tabled.add(m["name"])
-        tables.append((case, "-no-gen-PER" not in opts, "-no-gen-OER" not in opts, terms))
+        xi, hp = c10_alias.coq_x(j["dump"], resolved)
+        tables.append((case, "-no-gen-PER" not in opts, "-no-gen-OER" not in opts, terms, xi, hp))
         table_jobs.append((j, names_, replay))
         if len(run.cov["samples"]) < 3 and m["origin"] in ("special", "modgen") and len(terms) >= 3:
             run.sample({"module": m["name"], "options": list(opts), "descriptors": len(terms), "first": terms[0][:300]})
@@ -471,7 +516,7 @@ def main(tier):
             run.violation("translator:Gen_Descr(coqc)", dict(replay, what="generated obligation file does not compile", coqc_tail=log), no_input=True)
             continue
         j["failing_clauses"] = [c for _, c in diag]
-        j["failing_descrs"] = [(c, names_.get(d, ("?", "?"))[0], names_.get(d, ("?", "?"))[1], tables[i][3][d] if d < len(tables[i][3]) else "") for d, c in diag]
+        j["failing_descrs"] = [(c, names_.get(d, ("?", "?"))[0], names_.get(d, ("?", "?"))[1], tables[i][3][d] if 0 <= d < len(tables[i][3]) else "") for d, c in diag]
         fid = match_finding("descr", j)
         if fid and fid in known_ids:
             run.known_finding(fid, tables[i][0])
@@ -480,7 +525,7 @@ def main(tier):
         bad = [{"descriptor": names_.get(d, ("?", "?"))[1], "kind": names_.get(d, ("?", "?"))[0], "index": d, "clause": c, "clause_text": CLAUSES.get(c, "?")} for d, c in diag[:8]]
         run.violation("translator:Gen_Descr(clause %s)" % ",".join(sorted({str(c) for _, c in diag})),
                       dict(replay, what="asn1c exited 0 and the code builds, but a type descriptor is internally inconsistent: wf_descr_all = false",
-                           failing=bad, terms=[tables[i][3][d][:1500] for d, _ in diag[:2] if d < len(tables[i][3])]))
+                           failing=bad, terms=[tables[i][3][d][:1500] for d, _ in diag[:2] if 0 <= d < len(tables[i][3])]))
 
     # vlib prints one VIOLATION line per kind among the first 20 recorded: put one of every kind first
     firsts, rest, seen_k = [], [], set()
